@@ -533,6 +533,11 @@ SYM_MATH = SymMath()
 # --------------------------------------------------------------------------
 # rebound builtins
 def sym_isinstance(x, types):
+    # `float` is rebound to sym_float in scratch namespaces
+    if isinstance(types, tuple):
+        types = tuple(float if T is sym_float else T for T in types)
+    elif types is sym_float:
+        types = float
     if isinstance(x, SymNum):
         return x.isinstance_(types)
     if isinstance(x, SymBool):
